@@ -239,18 +239,20 @@ Proof.
   - apply kill_body_ok; reflexivity.
   - apply (wrapped_sys_ok w x (Nice v)); reflexivity.
   - set (value := match v with Some n => n | None => 0 end).
-    destruct (negb (value =? 0) && ((cls =? 3) || (cls =? 0))) eqn:C1.
-    + intros E; inversion E; subst. apply invalid_ok. cbn [valid_args]. fold value.
-      apply andb_true_iff in C1 as [C1 C2]. rewrite C2. apply negb_true_iff in C1. rewrite C1.
-      cbn. apply andb_false_r.
-    + destruct ((value <? 0) || (7 <? value)) eqn:C2.
-      * intros E; inversion E; subst. apply invalid_ok. cbn [valid_args]. fold value.
-        apply orb_true_iff in C2. destruct (Z.leb_spec 0 value), (Z.leb_spec value 7); cbn; auto.
-        destruct C2 as [C2|C2]; [apply Z.ltb_lt in C2|apply Z.ltb_lt in C2]; lia.
-      * apply (wrapped_sys_ok w x (Ionice cls v)). cbn [valid_args]. fold value.
-        apply orb_false_iff in C2 as [C2 C3]. apply Z.ltb_ge in C2, C3.
-        destruct (Z.leb_spec 0 value), (Z.leb_spec value 7); try lia.
-        all: try (cbn [andb]; destruct (value =? 0), ((cls =? 3) || (cls =? 0)); cbn [negb andb orb] in *; congruence).
+    assert (V : valid_args (opid x) (Ionice cls v) =
+                negb (negb (value =? 0) && ((cls =? 3) || (cls =? 0)))
+                && negb ((value <? 0) || (7 <? value))
+                && negb (negb ((0 <=? cls) && (cls <=? 3)))).
+    { cbn [valid_args]. fold value. rewrite !Z.ltb_antisym.
+      destruct (value =? 0), (cls =? 3), (cls =? 0), (0 <=? value), (value <=? 7), (0 <=? cls), (cls <=? 3);
+        reflexivity. }
+    destruct (negb (value =? 0) && ((cls =? 3) || (cls =? 0))).
+    { intros E; inversion E; subst. apply invalid_ok. rewrite V. reflexivity. }
+    destruct ((value <? 0) || (7 <? value)).
+    { intros E; inversion E; subst. apply invalid_ok. rewrite V. reflexivity. }
+    destruct (negb ((0 <=? cls) && (cls <=? 3))).
+    { intros E; inversion E; subst. apply invalid_ok. rewrite V. reflexivity. }
+    apply (wrapped_sys_ok w x (Ionice cls v)). rewrite V. reflexivity.
   - destruct (opid x =? 0) eqn:P0.
     + intros E; inversion E; subst. apply invalid_ok. cbn [valid_args]. rewrite P0. reflexivity.
     + destruct lims as [|a [|b [|c l]]].
